@@ -11,7 +11,7 @@
    No proofs in this file. *)
 From Coq Require Import ZArith List Bool.
 From ZV.Gen Require Import Gen_Bounds.
-From ZV.Params Require Import BoundsModel.
+From ZV.Params Require Import BoundsModel CParamsAdjust.
 Import ListNotations.
 Local Open Scope Z_scope.
 
@@ -221,23 +221,129 @@ Definition cctx_apply (c : cctx) (p : cstore) : cctx * result :=
        | _ => (mkC p (c_stage c) (c_dict c) (c_static c), Ok)
        end.
 
+(* ------------------------------------------------------------------ composite setters (round 2)
+   ZSTD_frameParameters as passed by value: three ints *)
+Record fpar : Set := mkFP { f_cs : Z; f_ck : Z; f_nd : Z }.
+
+(* FORWARD_IF_ERROR( ZSTD_CCtx_setParameter(cctx, p, v) ) ... in sequence: the first failing call stops the chain; what the
+   calls before it stored stays stored (the C code has no roll-back) *)
+Fixpoint cctx_set_seq (c : cctx) (l : list (cparam * Z)) : cctx * result :=
+  match l with
+  | [] => (c, Ok)
+  | (p, v) :: t =>
+      match cctx_set c (cparam_id p) v with
+      | (c', Ok) => cctx_set_seq c' t
+      | (c', Err e) => (c', Err e)
+      end
+  end.
+
+Definition cpar_sets (cp : cpar) : list (cparam * Z) :=
+  [ (C_windowLog, wlog cp); (C_chainLog, clog cp); (C_hashLog, hlog cp); (C_searchLog, slog cp);
+    (C_minMatch, mmatch cp); (C_targetLength, tlen cp); (C_strategy, strat cp) ].
+Definition fpar_sets (fp : fpar) : list (cparam * Z) :=
+  [ (C_contentSizeFlag, flag (f_cs fp)); (C_checksumFlag, flag (f_ck fp)); (C_dictIDFlag, if Z.eqb (f_nd fp) 0 then 1 else 0) ].
+
+(* ZSTD_CCtx_setCParams: ZSTD_checkCParams first ("only update if all parameters are valid"), then the seven setters *)
+Definition cctx_set_cparams (c : cctx) (cp : cpar) : cctx * result :=
+  if check_cparams cp then cctx_set_seq c (cpar_sets cp) else (c, Err E_outOfBound).
+(* ZSTD_CCtx_setFParams *)
+Definition cctx_set_fparams (c : cctx) (fp : fpar) : cctx * result := cctx_set_seq c (fpar_sets fp).
+(* ZSTD_CCtx_setParams: check cParams, set fParams, set cParams *)
+Definition cctx_set_params (c : cctx) (cp : cpar) (fp : fpar) : cctx * result :=
+  if check_cparams cp then
+    match cctx_set_fparams c fp with
+    | (c1, Ok) => cctx_set_cparams c1 cp
+    | (c1, Err e) => (c1, Err e)
+    end
+  else (c, Err E_outOfBound).
+
+(* the `auto` switches resolved at initialisation / frame start (the ZSTD_resolve... functions): thresholds as written in the C code, except the
+   row-match-finder one, which depends on SIMD availability and is regenerated *)
+Definition resolve_row (mode : Z) (cp : cpar) : Z :=
+  if negb (Z.eqb mode z_ZSTD_ps_auto) then mode
+  else if (z_ZSTD_greedy <=? strat cp) && (strat cp <=? z_ZSTD_lazy2) && (z_ROWMF_AUTO_MIN_WLOG <=? wlog cp) then z_ZSTD_ps_enable
+  else z_ZSTD_ps_disable.
+Definition resolve_split (mode : Z) (cp : cpar) : Z :=
+  if negb (Z.eqb mode z_ZSTD_ps_auto) then mode
+  else if (z_ZSTD_btopt <=? strat cp) && (17 <=? wlog cp) then z_ZSTD_ps_enable else z_ZSTD_ps_disable.
+Definition resolve_ldm (mode : Z) (cp : cpar) : Z :=
+  if negb (Z.eqb mode z_ZSTD_ps_auto) then mode
+  else if (z_ZSTD_btopt <=? strat cp) && (27 <=? wlog cp) then z_ZSTD_ps_enable else z_ZSTD_ps_disable.
+Definition resolve_maxblock (v : Z) : Z := if Z.eqb v 0 then z_ZSTD_BLOCKSIZE_MAX else v.
+Definition resolve_erc (mode level : Z) : Z :=
+  if negb (Z.eqb mode z_ZSTD_ps_auto) then mode else if level <? 10 then z_ZSTD_ps_disable else z_ZSTD_ps_enable.
+
+(* ZSTD_CCtxParams_init_internal(params, level): memset, cParams, fParams (stored as given: no normalisation), level, resolved switches *)
+Definition cparams_init_internal (cp : cpar) (fp : fpar) (level : Z) : cstore :=
+  fun q => match q with
+           | C_compressionLevel => level
+           | C_windowLog => wlog cp | C_chainLog => clog cp | C_hashLog => hlog cp | C_searchLog => slog cp
+           | C_minMatch => mmatch cp | C_targetLength => tlen cp | C_strategy => strat cp
+           | C_contentSizeFlag => f_cs fp | C_checksumFlag => f_ck fp
+           | C_dictIDFlag => if Z.eqb (f_nd fp) 0 then 1 else 0
+           | C_useRowMatchFinder => resolve_row z_ZSTD_ps_auto cp
+           | C_useBlockSplitter => resolve_split z_ZSTD_ps_auto cp
+           | C_enableLongDistanceMatching => resolve_ldm z_ZSTD_ps_auto cp
+           | C_maxBlockSize => resolve_maxblock 0
+           | C_searchForExternalRepcodes => resolve_erc z_ZSTD_ps_auto level
+           | _ => 0
+           end.
+(* ZSTD_CCtxParams_init_advanced: refused as a whole when a cParam is out of bounds; ZSTD_NO_CLEVEL = 0 *)
+Definition cparams_init_advanced (s : cstore) (cp : cpar) (fp : fpar) : cstore * result :=
+  if check_cparams cp then (cparams_init_internal cp fp 0, Ok) else (s, Err E_outOfBound).
+
 (* Frame-header fields a frame produced NOW by this context carries (ZSTD_writeFrameHeader on the applied parameters):
    checksum flag, content size present (only when the size is known at frame start), dictID present (the test
    dictionary / CDict carry an id, a raw prefix does not), magicless format. *)
 Definition dict_has_id (d : cdict_state) : bool :=
   match d with CD_local _ | CD_cdict => true | CD_none | CD_prefix => false end.
+(* [gt0]: before fix 587ee30 ZSTD_writeFrameHeader announced a checksum only for `fParams.checksumFlag > 0`, while the
+   epilogue appends one whenever the flag is non-zero (finding F32: a negative flag, which ZSTD_CCtxParams_init_advanced stores
+   as given, produced a frame with four unannounced bytes) *)
+Definition hdr_checksum_bit (gt0 : bool) (v : Z) : Z := if (if gt0 then 0 <? v else negb (Z.eqb v 0)) then 1 else 0.
 Definition cctx_frame_hdr (c : cctx) (size_known : bool) : list Z :=
   let s := c_params c in
-  [ s C_checksumFlag; if size_known then s C_contentSizeFlag else 0;
+  [ hdr_checksum_bit false (s C_checksumFlag);
+    (if size_known && negb (Z.eqb (s C_contentSizeFlag) 0) then 1 else 0);
     if dict_has_id (c_dict c) then s C_dictIDFlag else 0; s C_format ].
 (* ZSTD_compressCCtx: simpleApiParams = ZSTD_CCtxParams_init_internal(level params): checksum 0, content size 1, no dictID, zstd1 *)
 Definition simple_frame_hdr : list Z := [0; 1; 0; 0].
 
 (* ------------------------------------------------------------------ ZSTD_DCtx *)
+(* which dictionary a decompression context holds (round 2): dctx->dictUses (0 dont_use, 1 use_once, 2 use_indefinitely),
+   what dctx->ddict points to (a referenced DDict k, the internal copy made by loadDictionary of dictionary k, the by-reference
+   DDict of prefix k), the ids stored in dctx->ddictSet (None: not allocated), the dictionary the last parsed frame header named *)
+Inductive dkind : Set := DK_none | DK_ref (k : Z) | DK_local (k : Z) | DK_pfx (k : Z).
+Record ddicts : Set := mkDD { dd_uses : Z; dd_kind : dkind; dd_set : option (list Z); dd_last : Z }.
+Definition dd_empty : ddicts := mkDD 0 DK_none None 0.
+Definition dd_hasdict (x : ddicts) : bool := match dd_kind x with DK_none => false | _ => true end.
+(* ZSTD_clearDict *)
+Definition dd_clear (x : ddicts) : ddicts := mkDD 0 DK_none (dd_set x) (dd_last x).
+Definition dd_with_last (x : ddicts) (fid : Z) : ddicts := mkDD (dd_uses x) (dd_kind x) (dd_set x) fid.
+(* ZSTD_DCtx_selectFrameDDict when `refMultipleDDicts && ddictSet`: a frame naming a referenced dictionary switches to it *)
+Definition dd_select (multi : bool) (x : ddicts) (fid : Z) : ddicts :=
+  match dd_set x with
+  | Some l => if multi && dd_hasdict x && existsb (Z.eqb fid) l then mkDD 2 (DK_ref fid) (dd_set x) (dd_last x) else x
+  | None => x
+  end.
+(* ZSTD_getDDict: what the frame starting now uses, and what is left afterwards *)
+Definition dd_get (x : ddicts) : ddicts * dkind :=
+  if Z.eqb (dd_uses x) 0 then (dd_clear x, DK_none)
+  else if Z.eqb (dd_uses x) 1 then (mkDD 0 (dd_kind x) (dd_set x) (dd_last x), dd_kind x)
+  else (x, dd_kind x).
+(* does a frame that needs [need] (0 nothing, 1 / 2 that dictionary, 3 / 4 prefix 1 / 2) decode with [used] ? *)
+Definition dkind_matches (used : dkind) (need : Z) : bool :=
+  if Z.eqb need 0 then true
+  else match used with
+       | DK_ref k | DK_local k => ((need =? 1) || (need =? 2)) && (k =? need)
+       | DK_pfx k => ((need =? 3) || (need =? 4)) && (k =? need - 2)
+       | DK_none => false
+       end.
+
 Record dctx : Type := mkD {
   d_format : Z; d_maxWindowSize : Z; d_outBufferMode : Z; d_forceIgnoreChecksum : Z; d_refMultipleDDicts : Z;
   d_disableHufAsm : Z; d_maxBlockSizeParam : Z;
-  d_stage : stage; d_dict : bool; d_static : bool }.
+  d_stage : stage; d_dict : ddicts; d_static : bool }.
 
 Definition d_maxWindowSize_default : Z := 2 ^ z_ZSTD_WINDOWLOG_LIMIT_DEFAULT + 1.   (* ZSTD_MAXWINDOWSIZE_DEFAULT *)
 
@@ -246,7 +352,7 @@ Definition dctx_reset_params (d : dctx) : dctx :=
   mkD 0 d_maxWindowSize_default 0 0 0 0 0 (d_stage d) (d_dict d) (d_static d).
 
 Definition dctx_new (is_static : bool) : dctx :=
-  mkD 0 d_maxWindowSize_default 0 0 0 0 0 S_init false is_static.
+  mkD 0 d_maxWindowSize_default 0 0 0 0 0 S_init dd_empty is_static.
 
 (* ZSTD_DCtx_getParameter; windowLogMax = ZSTD_highbit32((U32)maxWindowSize) *)
 Definition dctx_get_p (d : dctx) (p : dparam) : Z :=
@@ -303,7 +409,7 @@ Definition dctx_set_max_window_size (d : dctx) (size : Z) : dctx * result :=
 
 Definition dctx_set_stage (d : dctx) (s : stage) : dctx :=
   mkD (d_format d) (d_maxWindowSize d) (d_outBufferMode d) (d_forceIgnoreChecksum d) (d_refMultipleDDicts d) (d_disableHufAsm d) (d_maxBlockSizeParam d) s (d_dict d) (d_static d).
-Definition dctx_set_dict (d : dctx) (b : bool) : dctx :=
+Definition dctx_set_dict (d : dctx) (b : ddicts) : dctx :=
   mkD (d_format d) (d_maxWindowSize d) (d_outBufferMode d) (d_forceIgnoreChecksum d) (d_refMultipleDDicts d) (d_disableHufAsm d) (d_maxBlockSizeParam d) (d_stage d) b (d_static d).
 
 (* ZSTD_DCtx_reset *)
@@ -312,19 +418,110 @@ Definition dctx_reset (d : dctx) (dir : Z) : dctx * result :=
   let params := Z.eqb dir z_ZSTD_reset_parameters || Z.eqb dir z_ZSTD_reset_session_and_parameters in
   let d1 := if session then dctx_set_stage d S_init else d in
   if params then
-    if stage_is_init (d_stage d1) then (dctx_reset_params (dctx_set_dict d1 false), Ok)
+    if stage_is_init (d_stage d1) then (dctx_reset_params (dctx_set_dict d1 (dd_clear (d_dict d1))), Ok)
     else (d1, Err E_stage_wrong)
   else (d1, Ok).
 
-(* ZSTD_decompressStream fed the first bytes of a frame header / garbage: leaves zdss_init *)
-Definition dctx_begin (d : dctx) : dctx := dctx_set_stage d S_mid.
-(* rest of the frame fed, or a whole frame decoded: back to zdss_init *)
-Definition dctx_end (d : dctx) : dctx := dctx_set_stage d S_init.
+(* ---- the dictionary side of decoding a frame (round 2).
+   [stale]: the code before fix a24560c ran ZSTD_DCtx_selectFrameDDict at zdss_loadHeader before the new header was read, i.e.
+   with the dictID of the PREVIOUS frame (finding F29); [stale = false] is the current tree and what zstd.h documents.
+   [fmt_ok]: the frame is in the format the context expects (otherwise the header is refused before any dictionary is touched,
+   and dctx->fParams is left zeroed); [fid]: the dictionary the frame header names (0: none); [need]: see dkind_matches. *)
+Definition dd_stale_select (stale : bool) (d : dctx) : ddicts :=
+  if stale then dd_select (Z.eqb (d_refMultipleDDicts d) 1) (d_dict d) (dd_last (d_dict d)) else d_dict d.
 
-(* ZSTD_DCtx_refDDict / loadDictionary: k = 0 is NULL *)
+(* ZSTD_decompressStream reaching the end of a frame header: select, then ZSTD_getDDict *)
+Definition dd_stream_header (stale : bool) (d : dctx) (fmt_ok : bool) (fid : Z) : ddicts * dkind :=
+  let x1 := dd_stale_select stale d in
+  if negb fmt_ok then (dd_with_last x1 0, DK_none)
+  else dd_get (dd_select (Z.eqb (d_refMultipleDDicts d) 1) (dd_with_last x1 fid) fid).
+
+(* ZSTD_decompressStream fed the first two bytes of frame F of the context's own format: a complete header when magicless *)
+Definition dctx_begin_gen (stale : bool) (d : dctx) : dctx :=
+  let x := if Z.eqb (d_format d) 1 then fst (dd_stream_header stale d true 0) else dd_stale_select stale d in
+  dctx_set_stage (dctx_set_dict d x) S_mid.
+(* rest of frame F fed: the header completes now in the zstd1 format *)
+Definition dctx_end_gen (stale : bool) (d : dctx) : dctx :=
+  let x := if Z.eqb (d_format d) 1 then d_dict d else fst (dd_stream_header stale d true 0) in
+  dctx_set_stage (dctx_set_dict d x) S_init.
+(* whole frame F in one call *)
+Definition dctx_frame_gen (stale : bool) (d : dctx) : dctx :=
+  dctx_set_stage (dctx_set_dict d (fst (dd_stream_header stale d true 0))) S_init.
+(* garbage: refused as a header *)
+Definition dctx_bad_gen (stale : bool) (d : dctx) : dctx :=
+  dctx_set_stage (dctx_set_dict d (fst (dd_stream_header stale d false 0))) S_mid.
+(* `dfx k`: prepared frame G_k (k = 1 magicless, k = 4 names dictionary 1) streamed, then a session reset *)
+Definition dctx_fx_gen (stale : bool) (d : dctx) (k : Z) : dctx :=
+  let fmt_ok := Z.eqb (d_format d) (if Z.eqb k 1 then 1 else 0) in
+  dctx_set_stage (dctx_set_dict d (fst (dd_stream_header stale d fmt_ok (if Z.eqb k 4 then 1 else 0)))) S_init.
+
+(* fixture frame f: 0 plain, 1 / 2 compressed with dictionary 1 / 2 (named in the header), 3 / 4 with prefix 1 / 2; all zstd1 *)
+Definition frame_fid (f : Z) : Z := if (f =? 1) || (f =? 2) then f else 0.
+
+(* `ddec f`: the whole frame through ZSTD_decompressStream, then a session reset *)
+Definition dctx_dec_stream_gen (stale : bool) (d : dctx) (f : Z) : dctx * result :=
+  let fmt_ok := Z.eqb (d_format d) 0 in
+  let '(x, used) := dd_stream_header stale d fmt_ok (frame_fid f) in
+  (dctx_set_stage (dctx_set_dict d x) S_init, if fmt_ok && dkind_matches used f then Ok else Err E_other).
+
+(* one frame of a one-shot call (ZSTD_decompressMultiFrame): [start] is the DDict the call was entered with.
+   [stale_tables]: before fix 70fa663 the frame was decoded with the tables of [start] although ZSTD_decodeFrameHeader had
+   switched dctx->ddict to the dictionary named by the frame (finding F30). *)
+Definition dd_oneshot_frame (stale_tables : bool) (multi : bool) (x : ddicts) (start : dkind) (f : Z) : ddicts * dkind * bool :=
+  let fid := frame_fid f in
+  let x1 := dd_select multi (dd_with_last x fid) fid in
+  let switched := match dd_set x with Some l => multi && dd_hasdict x && existsb (Z.eqb fid) l | None => false end in
+  let used := if switched && negb stale_tables && (match start with DK_none => false | _ => true end) then DK_ref fid else start in
+  (x1, used, dkind_matches used f).
+
+(* `ddec1 f` / `ddecm f1 f2 f3`: ZSTD_decompressDCtx on one frame / on the concatenation of frames, then a session reset;
+   the DDict a frame was started with is the one the next frame starts with *)
+Fixpoint dd_oneshot_frames (stale_tables : bool) (multi : bool) (x : ddicts) (start : dkind) (fs : list Z) : ddicts * bool :=
+  match fs with
+  | [] => (x, true)
+  | f :: t => let '(x1, start1, ok) := dd_oneshot_frame stale_tables multi x start f in
+              if ok then dd_oneshot_frames stale_tables multi x1 start1 t else (x1, false)
+  end.
+Definition dctx_dec_oneshot_gen (stale_tables : bool) (d : dctx) (fs : list Z) : dctx * result :=
+  let '(x0, start) := dd_get (d_dict d) in
+  if negb (Z.eqb (d_format d) 0) then (dctx_set_stage (dctx_set_dict d (dd_with_last x0 0)) S_init, Err E_other)
+  else let '(x1, ok) := dd_oneshot_frames stale_tables (Z.eqb (d_refMultipleDDicts d) 1) x0 start fs in
+       (dctx_set_stage (dctx_set_dict d x1) S_init, if ok then Ok else Err E_other).
+(* `ddecu k f`: ZSTD_decompress_usingDDict with an explicit DDict k (0 = NULL); ZSTD_getDDict is not consulted *)
+Definition dctx_dec_using_gen (stale_tables : bool) (d : dctx) (k f : Z) : dctx * result :=
+  if negb (Z.eqb (d_format d) 0) then (dctx_set_stage (dctx_set_dict d (dd_with_last (d_dict d) 0)) S_init, Err E_other)
+  else let '(x1, _, ok) := dd_oneshot_frame stale_tables (Z.eqb (d_refMultipleDDicts d) 1) (d_dict d)
+                                           (if Z.eqb k 0 then DK_none else DK_ref k) f in
+       (dctx_set_stage (dctx_set_dict d x1) S_init, if ok then Ok else Err E_other).
+
+Definition dctx_begin : dctx -> dctx := dctx_begin_gen false.
+Definition dctx_end : dctx -> dctx := dctx_end_gen false.
+Definition dctx_frame : dctx -> dctx := dctx_frame_gen false.
+Definition dctx_bad : dctx -> dctx := dctx_bad_gen false.
+Definition dctx_fx : dctx -> Z -> dctx := dctx_fx_gen false.
+Definition dctx_dec_stream : dctx -> Z -> dctx * result := dctx_dec_stream_gen false.
+Definition dctx_dec_oneshot : dctx -> list Z -> dctx * result := dctx_dec_oneshot_gen false.
+Definition dctx_dec_using : dctx -> Z -> Z -> dctx * result := dctx_dec_using_gen false.
+
+(* ZSTD_DCtx_refDDict: k = 0 is NULL; with ZSTD_d_refMultipleDDicts the DDict is also stored in the (lazily allocated) set *)
 Definition dctx_refddict (d : dctx) (k : Z) : dctx * result :=
   if negb (stage_is_init (d_stage d)) then (d, Err E_stage_wrong)
-  else (dctx_set_dict d (negb (Z.eqb k 0)), Ok).
+  else let x := d_dict d in
+       if Z.eqb k 0 then (dctx_set_dict d (dd_clear x), Ok)
+       else let set' := if Z.eqb (d_refMultipleDDicts d) 1
+                        then Some (k :: match dd_set x with Some l => l | None => [] end) else dd_set x in
+            (dctx_set_dict d (mkDD 2 (DK_ref k) set' (dd_last x)), Ok).
+(* ZSTD_DCtx_loadDictionary (by copy) *)
+Definition dctx_load (d : dctx) (k : Z) : dctx * result :=
+  if negb (stage_is_init (d_stage d)) then (d, Err E_stage_wrong)
+  else let x := d_dict d in
+       if Z.eqb k 0 then (dctx_set_dict d (dd_clear x), Ok)
+       else (dctx_set_dict d (mkDD 2 (DK_local k) (dd_set x) (dd_last x)), Ok).
+(* ZSTD_DCtx_refPrefix: loadDictionary by reference, then dictUses = use_once (also for the NULL prefix) *)
+Definition dctx_refprefix (d : dctx) (k : Z) : dctx * result :=
+  if negb (stage_is_init (d_stage d)) then (d, Err E_stage_wrong)
+  else let x := d_dict d in
+       (dctx_set_dict d (mkDD 1 (if Z.eqb k 0 then DK_none else DK_pfx k) (dd_set x) (dd_last x)), Ok).
 
 (* ------------------------------------------------------------------ the world: the objects of one test case *)
 Record world : Type := mkW { w_c0 : cctx; w_c1 : cctx; w_p : cstore; w_d0 : dctx; w_d1 : dctx }.
@@ -340,7 +537,12 @@ Inductive op : Set :=
 | ODSet (o : bool) (id v : Z) | ODGet (o : bool) (id : Z) | ODReset (o : bool) (dir : Z) | ODMaxWin (o : bool) (size : Z)
 | ODBegin (o : bool) | ODEnd (o : bool) | ODBad (o : bool) | ODBadCall (o : bool) | ODFrame (o : bool)
 | ODRefDDict (o : bool) (k : Z) | ODVec (o : bool)
-| ONop | ONew.
+| ONop | ONew
+(* round 2 *)
+| OCSetCP (o : bool) (cp : cpar) | OCSetFP (o : bool) (fp : fpar) | OCSetP (o : bool) (cp : cpar) (fp : fpar)
+| OPInitAdv (cp : cpar) (fp : fpar)
+| ODLoad (o : bool) (k : Z) | ODRefPrefix (o : bool) (k : Z) | ODFx (o : bool) (k : Z)
+| ODDec (o : bool) (f : Z) | ODDec1 (o : bool) (fs : list Z) | ODDecU (o : bool) (k f : Z) | ODXVec (o : bool).
 
 Definition get_c (w : world) (o : bool) : cctx := if o then w_c1 w else w_c0 w.
 Definition put_c (w : world) (o : bool) (c : cctx) : world :=
@@ -359,7 +561,17 @@ Definition cctx_vec (c : cctx) : list Z :=
   map (c_params c) all_cparams ++ [stage_code (c_stage c); cdict_code (c_dict c)].
 Definition cstore_vec (s : cstore) : list Z := map s all_cparams.
 Definition dctx_vec (d : dctx) : list Z :=
-  map (dctx_get_p d) all_dparams ++ [d_maxWindowSize d; stage_code (d_stage d); if d_dict d then 1 else 0].
+  map (dctx_get_p d) all_dparams ++ [d_maxWindowSize d; stage_code (d_stage d); if dd_hasdict (d_dict d) then 1 else 0].
+(* dictUses, kind of dctx->ddict (0 none, 1 referenced, 2 local copy, 3 prefix), which one, set allocated, set members
+   (dd_last is not observable: since fix a24560c no call reads dctx->fParams.dictID before writing it) *)
+Definition dkind_code (k : dkind) : list Z :=
+  match k with DK_none => [0; 0] | DK_ref k => [1; k] | DK_local k => [2; k] | DK_pfx k => [3; k] end.
+Definition b2z (b : bool) : Z := if b then 1 else 0.
+Definition dctx_xvec (d : dctx) : list Z :=
+  let x := d_dict d in
+  let l := match dd_set x with Some l => l | None => [] end in
+  [dd_uses x] ++ dkind_code (dd_kind x)
+  ++ [b2z (match dd_set x with Some _ => true | None => false end); b2z (existsb (Z.eqb 1) l); b2z (existsb (Z.eqb 2) l)].
 
 (* one API call: new world, return class, values printed *)
 Definition step (w : world) (x : op) : world * (result * list Z) :=
@@ -389,13 +601,24 @@ Definition step (w : world) (x : op) : world * (result * list Z) :=
   | ODMaxWin o size => let '(d, r) := dctx_set_max_window_size (get_d w o) size in (put_d w o d, (r, []))
   | ODBegin o => (put_d w o (dctx_begin (get_d w o)), (Ok, []))
   | ODEnd o => (put_d w o (dctx_end (get_d w o)), (Ok, []))
-  | ODBad o => (put_d w o (dctx_begin (get_d w o)), (Err E_other, []))
+  | ODBad o => (put_d w o (dctx_bad (get_d w o)), (Err E_other, []))
   | ODBadCall o => (w, (Err E_other, []))
-  | ODFrame o => (put_d w o (dctx_end (get_d w o)), (Ok, []))
+  | ODFrame o => (put_d w o (dctx_frame (get_d w o)), (Ok, []))
   | ODRefDDict o k => let '(d, r) := dctx_refddict (get_d w o) k in (put_d w o d, (r, []))
   | ODVec o => (w, (Ok, dctx_vec (get_d w o)))
   | ONop => (w, (Ok, []))
   | ONew => (world_new, (Ok, []))
+  | OCSetCP o cp => let '(c, r) := cctx_set_cparams (get_c w o) cp in (put_c w o c, (r, []))
+  | OCSetFP o fp => let '(c, r) := cctx_set_fparams (get_c w o) fp in (put_c w o c, (r, []))
+  | OCSetP o cp fp => let '(c, r) := cctx_set_params (get_c w o) cp fp in (put_c w o c, (r, []))
+  | OPInitAdv cp fp => let '(s, r) := cparams_init_advanced (w_p w) cp fp in (put_p w s, (r, []))
+  | ODLoad o k => let '(d, r) := dctx_load (get_d w o) k in (put_d w o d, (r, []))
+  | ODRefPrefix o k => let '(d, r) := dctx_refprefix (get_d w o) k in (put_d w o d, (r, []))
+  | ODFx o k => (put_d w o (dctx_fx (get_d w o) k), (Ok, []))
+  | ODDec o f => let '(d, r) := dctx_dec_stream (get_d w o) f in (put_d w o d, (r, []))
+  | ODDec1 o fs => let '(d, r) := dctx_dec_oneshot (get_d w o) fs in (put_d w o d, (r, []))
+  | ODDecU o k f => let '(d, r) := dctx_dec_using (get_d w o) k f in (put_d w o d, (r, []))
+  | ODXVec o => (w, (Ok, dctx_xvec (get_d w o)))
   end.
 
 Definition run (w : world) (ops : list op) : world := fold_left (fun w x => fst (step w x)) ops w.
